@@ -63,6 +63,42 @@ Theorem C03_send_result_irrelevant :
 Proof. exact run_sent_irrelevant. Qed.
 Print Assumptions C03_send_result_irrelevant.
 
+(* The same four statements when the leader rotation changes during the run (membership growing
+   after the replica was created, rotations depending on state): each handler invocation is paired
+   with the rotation as it answers at that moment. *)
+Theorem C03_vote_wellformed_var :
+  forall (self : rid) (agg : bool) st (l : list ((view -> rid) * event)) st' out p,
+    run_var self agg st l = (st', out) -> In (SignVote p) out ->
+    exists ld e, In (ld, e) l /\
+      (p_sender p = ld (p_view p) /\ p_qc_ok p = true /\ p_agg_ok p = true /\ p_rule p = true /\
+       p_parent p = p_qc_hash p /\ exists bv, p_qc_block_view p = Some bv /\ bv < p_view p) /\
+      (ext_of e = Some p \/
+       exists o, own_of e = Some o /\ p = mk_own self (p_view p) o /\ ld (p_view p) = self).
+Proof. exact vote_wellformed_var. Qed.
+Print Assumptions C03_vote_wellformed_var.
+
+Theorem C03_votes_increasing_var :
+  forall (self : rid) (agg : bool) st (l : list ((view -> rid) * event)) st' out,
+    run_var self agg st l = (st', out) ->
+    StronglySorted N.lt (vote_views out) /\ NoDup (vote_views out) /\
+    Forall (fun v => last_voted st < v) (vote_views out).
+Proof. exact votes_increasing_var. Qed.
+Print Assumptions C03_votes_increasing_var.
+
+Theorem C03_no_vote_after_timeout_var :
+  forall (self : rid) (agg : bool) st (l : list ((view -> rid) * event)) st' out l1 x l2 p,
+    run_var self agg st l = (st', out) -> out = l1 ++ x :: l2 -> In (SignVote p) l2 ->
+    sig_view x < p_view p.
+Proof. exact no_vote_after_signing_var. Qed.
+Print Assumptions C03_no_vote_after_timeout_var.
+
+Theorem C03_last_voted_dominates_var :
+  forall (self : rid) (agg : bool) st (l : list ((view -> rid) * event)) st' out,
+    run_var self agg st l = (st', out) ->
+    last_voted st <= last_voted st' /\ forall s, In s out -> sig_view s <= last_voted st'.
+Proof. exact last_voted_dominates_var. Qed.
+Print Assumptions C03_last_voted_dominates_var.
+
 (* The tree without the repair does not satisfy the first statement. *)
 Theorem C03_unpatched_verify_refuted :
   exists es st' out p,
